@@ -201,14 +201,8 @@ impl MT104 {
                     creditor = parser.parse_optional_variant_field::<Field50Creditor>("50")?;
                 }
                 _ => {
-                    // Unknown variant, try both
-                    if let Ok(ip) =
-                        parser.parse_optional_variant_field::<Field50InstructingParty>("50")
-                    {
-                        instructing_party = ip;
-                    } else {
-                        creditor = parser.parse_optional_variant_field::<Field50Creditor>("50")?;
-                    }
+                    // Any other option letter is not allowed here: report it instead of guessing
+                    creditor = parser.parse_optional_variant_field::<Field50Creditor>("50")?;
                 }
             }
         }
@@ -249,15 +243,9 @@ impl MT104 {
                             parser.parse_optional_variant_field::<Field50Creditor>("50")?;
                     }
                     _ => {
-                        // Unknown variant, try both
-                        if let Ok(ip) =
-                            parser.parse_optional_variant_field::<Field50InstructingParty>("50")
-                        {
-                            instructing_party_tx = ip;
-                        } else {
-                            creditor_tx =
-                                parser.parse_optional_variant_field::<Field50Creditor>("50")?;
-                        }
+                        // Any other option letter is not allowed here: report it instead of guessing
+                        creditor_tx =
+                            parser.parse_optional_variant_field::<Field50Creditor>("50")?;
                     }
                 }
             }
